@@ -1,7 +1,7 @@
 (* PropC01.v — property C01: line-based retrace returns exactly the recorded call stack.
    Statements only; proofs in MapperProofs.v (mapper = spec), CacheProofs.v (cache = spec),
    IsolationProofs.v / ParserFacts.v (lifting to files). *)
-From PG Require Import Base Mapping Spec Mapper CacheWriter CacheReader CacheStructDefs MappingProofs IsolationProofs MapperProofs ParserFacts CacheBytesProofs Domain WriterInv CacheProofs CacheLayout BridgeBlocks SpecFacts.
+From PG Require Import Base Mapping Spec Mapper CacheWriter CacheReader CacheStructDefs MappingProofs IsolationProofs MapperProofs ParserFacts CacheBytesProofs Domain WriterInv CacheProofs CacheLayout BridgeBlocks SpecFacts Roundtrip FileLevel.
 
 (* mapper = specification, for every record list with non-empty original class names and
    positive end lines (both hold for what the parser yields from in-domain files) *)
@@ -69,6 +69,16 @@ Theorem C01_spec_range_offset : forall cf ty orig obf args ocls rest s e os oe l
   entry_line (mk cf ty orig obf args ocls (Some {| lm_start := s; lm_end := e; lm_os := Some os; lm_oe := Some oe |}) rest) line
   = N.min MAX64 (os + (line - s)).
 Proof. exact rule_range_offset. Qed.
+
+(* whole files: a file printed from grammar lines, with any mix of LF / CR / CRLF terminators and any
+   blank or unparseable lines in between, has exactly the records of its grammar lines — so the
+   answer depends on neither *)
+Theorem C01_file_records : forall f, wf_file f = true -> recs (print_file f) = map record_of (file_lines f).
+Proof. exact recs_print_file_lines. Qed.
+Theorem C01_file_independent : forall f1 f2 c m line file,
+  wf_file f1 = true -> wf_file f2 = true -> file_lines f1 = file_lines f2 ->
+  Sline (recs (print_file f1)) c m line file = Sline (recs (print_file f2)) c m line file.
+Proof. intros f1 f2 c m line file H1 H2 H. exact (Sline_file_independent f1 f2 H1 H2 H c m line file). Qed.
 
 (* the order of distinctly named class blocks is irrelevant *)
 Theorem C01_block_order_irrelevant : forall bs1 bs2,
